@@ -203,12 +203,14 @@ func (c *Check) Finish() int {
 		return 3
 	}
 	switch {
+	case c.newCount > 0:
+		// a violation carries its own replayable artefact (and was re-executed before being reported):
+		// it stands even if some other part of the run hit an engine error
+		fmt.Printf("RESULT property=%s violations=%d engine-errors=%d\n", c.Property, c.newCount, len(c.engineErr))
+		return 1
 	case len(c.engineErr) > 0:
 		fmt.Printf("RESULT property=%s engine-error (%d)\n", c.Property, len(c.engineErr))
 		return 3
-	case c.newCount > 0:
-		fmt.Printf("RESULT property=%s violations=%d\n", c.Property, c.newCount)
-		return 1
 	}
 	fmt.Printf("RESULT property=%s held tier=%s wall=%.1fs\n", c.Property, Tier(), time.Since(c.start).Seconds())
 	return 0
